@@ -441,6 +441,12 @@ def apply_op(g, op, rc=None):
         und = g.layerlist[1:]
         lays = list(dict((l.name, l) for l in [und[i % len(und)] for i in op['layers']]).values())
         g.refine_layers(lays, factor=op.get('factor', 2), chars=chars)
+    elif k == 'drop_connection':
+        # a connection taken out of the table (shipped g3.dat has 20 interior sides without one): the columns still share the side
+        if g.connectionlist:
+            con = g.connectionlist[op['con'] % len(g.connectionlist)]
+            g.delete_connection(tuple(c.name for c in con.column))
+            g.setup_block_connection_name_index()
     elif k == 'drop_layer':
         # the bottom layer taken away with the raw list mutator, the name lists refreshed the documented way (the cached
         # per-column layer counts are left as delete_layer() leaves them: see C10-K2)
